@@ -11,46 +11,7 @@ verus! {
 //@ include lib/base.rs
 //@ include lib/lvr.rs
 
-// value of the first n limbs
-pub open spec fn lvi(s: Seq<u64>, n: int) -> int decreases n {
-    if n <= 0 { 0 } else { lvi(s, n - 1) + s[n - 1] as int * bp(n - 1) }
-}
-pub proof fn lemma_lvi_ext(s: Seq<u64>, t: Seq<u64>, n: int)
-    requires n <= s.len(), n <= t.len(), forall|j: int| 0 <= j < n ==> s[j] == t[j]
-    ensures lvi(s, n) == lvi(t, n)
-    decreases n
-{ if n > 0 { lemma_lvi_ext(s, t, n - 1); } }
-pub proof fn lemma_lvi_bound(s: Seq<u64>, n: int)
-    requires 0 <= n <= s.len()
-    ensures 0 <= lvi(s, n) < bp(n)
-    decreases n
-{
-    if n > 0 {
-        lemma_lvi_bound(s, n - 1);
-        lemma_bp_pos(n - 1);
-        assert(s[n - 1] as int * bp(n - 1) <= (B - 1) * bp(n - 1)) by(nonlinear_arith) requires s[n - 1] as int <= B - 1, bp(n - 1) >= 1;
-        assert(s[n - 1] as int * bp(n - 1) >= 0) by(nonlinear_arith) requires s[n - 1] as int >= 0, bp(n - 1) >= 1;
-        assert((B - 1) * bp(n - 1) + bp(n - 1) == B * bp(n - 1)) by(nonlinear_arith);
-    }
-}
-pub proof fn lemma_lvi_zero(s: Seq<u64>, n: int)
-    requires n <= s.len(), forall|j: int| 0 <= j < n ==> s[j] == 0
-    ensures lvi(s, n) == 0
-    decreases n
-{ if n > 0 { lemma_lvi_zero(s, n - 1); } }
-
-// lvi (top-down) and lvr (bottom-up) denote the same number
-pub proof fn lemma_lvi_is_lvr(s: Seq<u64>, n: int)
-    requires 0 <= n <= s.len()
-    ensures lvi(s, n) == lvr(s, 0, n)
-    decreases n
-{
-    if n > 0 {
-        lemma_lvi_is_lvr(s, n - 1);
-        lemma_lvr_push(s, 0, n - 1);
-        assert(s[n - 1] as int * bp(n - 1) == bp(n - 1) * s[n - 1] as int) by(nonlinear_arith);
-    }
-}
+//@ include lib/lvi.rs
 
 //@ import add carrying_add
 //@ import kernels cmp
@@ -90,23 +51,66 @@ pub fn carrying_mul_add(lhs: u64, rhs: u64, add: u64, carry: u64) -> /*+*/(r:/*-
 }
 //@ end
 
-pub open spec fn reduce_post(r: Seq<u64>, value: Seq<u64>, modulus: Seq<u64>, carry: bool, n: int) -> bool {
-    &&& lvi(r, n) < lvi(modulus, n)
-    &&& (lvi(r, n) == lvi(value, n) + (if carry { bp(n) } else { 0 })
-            || lvi(r, n) == lvi(value, n) + (if carry { bp(n) } else { 0 }) - lvi(modulus, n))
-}
-pub open spec fn redc_post(r: Seq<u64>, ab: int, mv: int, n: int) -> bool {
-    &&& lvi(r, n) < mv
-    &&& exists|mu: int| #[trigger] redc_rel(bp(n) * lvi(r, n), ab, mv, mu)
-}
+//@ import add borrowing_sub
 
-// ASSUMED (label A): sub + reduce1_carry iterate with zip() over arrays by value, outside the Verus subset.
-// Contract: for x = value + carry*B^N < 2m the result is x or x - m, and < m. Discharged per N in {1,2,3,4} by Kani (c11::c11_reduce1_*).
-#[verifier::external_body]
-pub fn reduce1_carry<const N: usize>(value: [u64; N], modulus: [u64; N], carry: bool) -> (r: [u64; N])
+// sub / reduce1_carry iterate with zip() over arrays by value, which is outside the Verus subset: the loop header is rewritten
+// (declared rewrites R below, reported as normalisations on every run) into the index loop with the same element order.
+//@ extract src/algorithms/mul_redc.rs fn sub rewrite="for ( result , ( lhs , rhs ) ) in zip ( & mut result , zip ( lhs , rhs ) ) {" => "for idx in 0..N { let (lhs, rhs) = (lhs[idx], rhs[idx]);" #1 rewrite="* result = value ;" => "result[idx] = value;" #1
+pub fn sub<const N: usize>(lhs: [u64; N], rhs: [u64; N]) -> /*+*/(r:/*-*/ ([u64; N], bool)/*+*/)
+    ensures lvi(r.0@, N as int) - (if r.1 { bp(N as int) } else { 0 }) == lvi(lhs@, N as int) - lvi(rhs@, N as int)/*-*/
+{
+    /*+*/let ghost ls = lhs@; let ghost rs = rhs@;/*-*/
+    let mut result = [0; N];
+    let mut borrow = false;
+    /*+*/proof { assert(b2n(false) * bp(0) == 0) by(nonlinear_arith) requires b2n(false) == 0; }/*-*/
+    for idx in 0..N
+        /*+*/invariant
+            ls == lhs@, rs == rhs@,
+            lvi(result@, idx as int) - b2n(borrow) * bp(idx as int) == lvi(ls, idx as int) - lvi(rs, idx as int),/*-*/
+    {
+        let (lhs, rhs) = (lhs[idx], rhs[idx]);
+        /*+*/let ghost res_before = result@; let ghost b0 = b2n(borrow) as int;/*-*/
+        let (value, next_borrow) = borrowing_sub(lhs, rhs, borrow);
+        result[idx] = value;
+        borrow = next_borrow;
+        /*+*/proof {
+            let ii = idx as int;
+            lemma_lvi_ext(res_before, result@, ii);
+            assert(bp(ii + 1) == B * bp(ii));
+            assert(lvi(result@, ii + 1) == lvi(result@, ii) + value as int * bp(ii));
+            assert(lvi(ls, ii + 1) == lvi(ls, ii) + ls[ii] as int * bp(ii));
+            assert(lvi(rs, ii + 1) == lvi(rs, ii) + rs[ii] as int * bp(ii));
+            let b1 = b2n(borrow) as int;
+            assert(lvi(result@, ii + 1) - b1 * (B * bp(ii)) == lvi(ls, ii + 1) - lvi(rs, ii + 1)) by(nonlinear_arith)
+                requires lvi(res_before, ii) - b0 * bp(ii) == lvi(ls, ii) - lvi(rs, ii),
+                         lvi(result@, ii + 1) == lvi(res_before, ii) + value as int * bp(ii),
+                         lvi(ls, ii + 1) == lvi(ls, ii) + ls[ii] as int * bp(ii),
+                         lvi(rs, ii + 1) == lvi(rs, ii) + rs[ii] as int * bp(ii),
+                         value as int - b1 * B == ls[ii] as int - rs[ii] as int - b0;
+        }/*-*/
+    }
+    /*+*/proof {
+        assert(b2n(borrow) * bp(N as int) == (if borrow { bp(N as int) } else { 0 })) by(nonlinear_arith) requires b2n(borrow) == (if borrow { 1nat } else { 0nat });
+    }/*-*/
+    (result, borrow)
+}
+//@ end
+
+//@ extract src/algorithms/mul_redc.rs fn reduce1_carry bools=carry,borrow
+pub fn reduce1_carry<const N: usize>(value: [u64; N], modulus: [u64; N], carry: bool) -> /*+*/(r:/*-*/ [u64; N]/*+*/)
     requires lvi(value@, N as int) + (if carry { bp(N as int) } else { 0 }) < 2 * lvi(modulus@, N as int)
-    ensures reduce_post(r@, value@, modulus@, carry, N as int)
-{ unimplemented!() }
+    ensures reduce_post(r@, value@, modulus@, carry, N as int)/*-*/
+{
+    /*+*/proof { lemma_lvi_bound(value@, N as int); lemma_lvi_bound(modulus@, N as int); }/*-*/
+    let (reduced, borrow) = sub(value, modulus);
+    /*+*/proof { lemma_lvi_bound(reduced@, N as int); }/*-*/
+    if carry || !borrow {
+        reduced
+    } else {
+        value
+    }
+}
+//@ end
 
 // one inner step of the CIOS row, i >= 1
 pub proof fn lemma_row_step(s_i: int, lvres: int, c1: int, c2: int, bpi1: int, r0i: int, ai: int, mi: int, b: int, m: int,
@@ -122,7 +126,6 @@ pub proof fn lemma_row_step(s_i: int, lvres: int, c1: int, c2: int, bpi1: int, r
         requires s_i == B * lvres + (c1 + c2) * (B * bpi1), v1 + c1n * B == ai * b + r0i + c1, v2 + c2n * B == mi * m + v1 + c2;
 }
 
-pub open spec fn redc_rel(lhs: int, ab: int, mv: int, mu: int) -> bool { lhs == ab + mv * mu }
 
 //@ extract src/algorithms/mul_redc.rs fn mul_redc rewrite="for b in b {" => "for b_idx in 0..N { let b = b[b_idx];" #1
 pub fn mul_redc<const N: usize>(a: [u64; N], b: [u64; N], modulus: [u64; N], inv: u64) -> /*+*/(res:/*-*/ [u64; N]/*+*/)
